@@ -56,6 +56,9 @@ CHECKS.update({
  "C21": dict(level="fault_enumeration", engine="l1+l2", ref="§3 C21", note=L1_NOTE + " Accounting histories run on the real DiskManager and real temp files; OS write failures come from RLIMIT_FSIZE (EFBIG). The concurrent part runs under L2 (shuttle).",
    technique="deterministic simulation with fault injection: model-based histories on the real DiskManager with OS write failures (RLIMIT_FSIZE) and limit rejections swept over write positions; IPC round trip through a chunking/Pending-injecting simulated disk under seeded schedules; shuttle schedules for concurrent writers",
    text="(a) mixed-type batch sequences (views, dictionaries, lists, structs, NULLs, slices, empty batches) x codecs x read-buffer sizes round-trip through the real spill writer/reader on SimDisk with seeded read chunking; (b) create/write/finish/clone/drop/set_limit histories on the real disk manager with EFBIG injected at a generated file size and limit rejections: after every step used_disk_space equals the acknowledged bytes of live files, never exceeds the limit after an admitted write, returns to 0, temp files disappear; (c) 2-3 concurrent writers under shuttle."),
+ "C31": dict(level="exploration", engine="l1+l2", ref="§3 C31", note=L1_NOTE + " The filter object itself is explored under L2 (shuttle).",
+   technique="deterministic simulation: seeded schedules of build/probe/sibling-partition interleavings with scans that accept pushed-down dynamic filters and re-evaluate them per batch, reference-evaluator oracle; shuttle schedule search over the filter object (update/current/cache/wait_complete)",
+   text="L1: joins of every type, TopK sorts and grouped aggregates planned by the real optimizer with dynamic filter pushdown forced on, over simulated scans that accept the pushed filters and evaluate current() on every batch; arrival order of build side, probe side and partitions decided by the seeded scheduler; a wrongly pruned row shows up as a row missing from the reference result. L2: concurrent update/current/with_new_children/mark_complete/wait_complete histories on the real DynamicFilterPhysicalExpr: only published values, monotone per reader, at least every completed update, remap applied, no lost completion wake-up."),
 })
 
 NA = {
@@ -95,7 +98,7 @@ NA = {
  "C51": "pure string functions",
  "C52": "pure string functions",
 }
-PLANNED = ["C25","C26","C31","C40","C50","C53"]
+PLANNED = ["C25","C26","C40","C50","C53"]
 
 def main():
     props = [json.loads(l)["id"] for l in open(os.path.join(ROOT, "properties.jsonl"))]
